@@ -341,7 +341,16 @@ def rule_twins(ctx):
     TW.twin_agreement(ctx, ctx.program, "TW", ("huginn_net_http", "huginn_net_tls"), floor=6)
 
 
+def rule_shared_decoder(ctx):
+    """state shared by all connections (the HPACK decoder of the HTTP/2 parser) is re-created per message on every path: otherwise its
+    dynamic table grows with the traffic of connections that are long gone (shared with C07.R1)"""
+    from ..engine import report as R
+    from . import C07
+    C07.rule_R1(R.Retag(ctx, "C07."), "R1")
+
+
 def run(ctx):
+    rule_shared_decoder(ctx)
     rule_alloc_sizes(ctx)
     rule_twins(ctx)
     rule_shared(ctx)
